@@ -197,7 +197,10 @@ def trio_from_thread_run(I, args, kwargs):
     RunFinishedError when t's run is over; otherwise runs (awaits) f(*a) in t's thread and yields its outcome by identity"""
     ctx = I.ctx
     token = kwargs.get("trio_token")
-    d = ctx.choose(3, "from_thread.run")
+    d = ctx.choose(4, "from_thread.run")
+    if d == 3:
+        ctx.emit("from_thread.run-cancelled", token)
+        raise PyRaise(I.make_exception(ExternalRef("trio.Cancelled"), []))
     if d == 1:
         ctx.emit("from_thread.run-finished", token)
         raise PyRaise(I.make_exception(ExternalRef("trio.RunFinishedError"), []))
@@ -217,6 +220,44 @@ def trio_from_thread_run(I, args, kwargs):
         ctx.ghost["here"] = saved
 
 
+class ThreadObj(B.NativeObj):
+    """threading.Thread(target=f, args=a, daemon=d): start() runs f(*a) exactly once on a fresh thread (assumed)"""
+
+    def __init__(self, target, args, daemon):
+        self.target, self.args, self.daemon = target, args, daemon
+
+    def getattr(self, I, name):
+        if name == "start":
+            return ThreadStart(self)
+        if name == "join":
+            return ThreadJoin(self)
+        raise Unsupported("attribute %s of a Thread" % name)
+
+
+class ThreadStart(B.NativeObj):
+    def __init__(self, th):
+        self.th = th
+
+    def call(self, I, args, kwargs):
+        th = self.th
+        a0 = th.args.items[0] if th.args is not None and th.args.items else None
+        I.ctx.emit("thread.start", th.target, a0, th.daemon)
+        return None
+
+
+class ThreadJoin(B.NativeObj):
+    def __init__(self, th):
+        self.th = th
+
+    def call(self, I, args, kwargs):
+        I.ctx.emit("thread.join", self.th.target)
+        return None
+
+
+def threading_thread(I, args, kwargs):
+    return ThreadObj(kwargs.get("target"), kwargs.get("args"), kwargs.get("daemon", False))
+
+
 def asyncio_current_task(I, args, kwargs):
     t = I.ctx.ghost.get("current_task")
     if t is None:
@@ -225,6 +266,6 @@ def asyncio_current_task(I, args, kwargs):
 
 
 def install(E):
-    E.externals.update({"asyncio.run_coroutine_threadsafe": run_coroutine_threadsafe, "trio.from_thread.run": trio_from_thread_run,
+    E.externals.update({"threading.Thread": threading_thread, "asyncio.run_coroutine_threadsafe": run_coroutine_threadsafe, "trio.from_thread.run": trio_from_thread_run,
                         "asyncio.current_task": asyncio_current_task, "trio.sleep": trio_sleep, "str.__mod__": str_mod, "logging.getLogger": get_logger,
                         "asyncio.run": asyncio_run, "asyncio.shield": asyncio_shield, "asyncio.gather": asyncio_gather})
